@@ -135,6 +135,9 @@ func evalName(node *jparse.NameNode, data reflect.Value, env *environment) (refl
 	data = jtypes.Resolve(data)
 
 	switch {
+	case jtypes.IsCallable(data):
+		// Function values have no members.
+		return undefined, nil
 	case jtypes.IsStruct(data):
 		v = data.FieldByName(node.Value)
 	case jtypes.IsMap(data):
